@@ -4,6 +4,10 @@ import json, os
 HERE = os.path.dirname(os.path.dirname(os.path.abspath(__file__)))
 
 CLAIMED = {
+ "C11": dict(level="fault_enumeration", ref="§4 C11",
+   technique="deterministic simulation of training histories with protocol faults (step omission / duplication / reorder / invalid call) enumerated over every step; step-by-step comparison against an independent scalar reverse-mode reference evaluated at the implementation's current weights; bounded recovery (one step after the missing reset)",
+   text="Seeded training histories FC -> activation -> loss assembled from the library's own parts. Every step's loss and weight update is compared with an independent reference (a scalar tape) at the current weights; for each history every protocol fault kind is injected at every step: after an omitted reset / back-propagation the next Update of every weight must fail and replace nothing, and the step after the reset is restored must match the reference again. A dual-mode reference separates the known broadcast-mean finding from any other deviation. Exhaustive over fault placement within a history, sampling over histories.",
+   note="Trusted: props/tape.go and the forward formulas written in the harness. Histories at non-differentiable points are discarded and counted."),
  "C10": dict(level="fault_enumeration", ref="§4 C10",
    technique="deterministic simulation with an alias-scribble fault: for each seeded program over the slice-taking / slice-returning API, every registered caller-visible slice x instant is re-executed with the caller overwriting the slice; twin-run equality of every observation plus immutability invariants after every step",
    text="Seeded programs over the public surface that takes or returns slices, followed by BackPropagate / Update / Reset. Fault placement is enumerated per program (quick: every slice x {right after the call, just before each later BackPropagate, at the end}; thorough: x every later instant). Every observation of the faulted run must equal the un-faulted twin bitwise, and in every run no step may change an existing tensor's shape/elements, gradients appear only during BackPropagate on tensors upstream of the root, tracking state changes only by ResetGradContext. Exhaustive over fault placement within a program, sampling over programs.",
